@@ -360,8 +360,15 @@ fn writer_prefix_case(t: &mut Tctx, shape: &Shape, val: &Val, plain: &[u8], sche
 struct FmtPieces(Vec<String>);
 impl std::fmt::Display for FmtPieces {
     fn fmt(&self, f: &mut std::fmt::Formatter<'_>) -> std::fmt::Result {
-        for p in &self.0 {
-            f.write_str(p)?;
+        use std::fmt::Write;
+        for (i, p) in self.0.iter().enumerate() {
+            if i % 2 == 1 {
+                for c in p.chars() {
+                    f.write_char(c)?;
+                }
+            } else {
+                f.write_str(p)?;
+            }
         }
         Ok(())
     }
@@ -802,6 +809,11 @@ pub fn run(cfg: &Cfg) -> Report {
     if let Some(p) = &cfg.replay {
         let m = read_replay(p).unwrap_or_default();
         let s = parallel(&Cfg { threads: 1, ..cfg.clone() }, 9, |t| {
+            if m.get("kind").map(|s| s.as_str()) == Some("c11-picky") {
+                // the pieces of a formatted text are not recoverable from its encoding: the lane is re-run
+                picky_lane(t);
+                return;
+            }
             let shape = match Shape::parse(m.get("shape").map(|s| s.as_str()).unwrap_or("")) {
                 Ok(s) => s,
                 Err(e) => {
